@@ -80,6 +80,8 @@ class Model:
                     ops.append(('CONNECT', s, ns, 0, 'accept'))
                     ops.append(('DISCONNECT', s, ns))
                 else:
+                    if not self.always_connect:
+                        ops.append(('CONNECT-write-fails', s, ns))
                     for a in range(len(AUTHS)):
                         for o in self.outcomes:
                             if o.startswith('j') and a:
@@ -187,6 +189,50 @@ class Model:
                         w.all_sids.add(key)
                         w.old.append((key, ns))
                         w.old = w.old[-4:]
+        elif kind == 'CONNECT-write-fails':
+            # fault: the handler accepts, the write of the CONNECT answer
+            # raises.  The application has seen the connection, so it is an
+            # accepted connection: it stays known to the server and its
+            # disconnect handler will run when it ends
+            _, s, ns = op
+            t = w.slot[s]
+            w.script['connect'] = 'accept'
+            real = w.sio.eio.send
+            state = {'n': 0}
+            if w.is_async:
+                async def send(*a, **k):
+                    state['n'] += 1
+                    if state['n'] == 1:
+                        raise OSError('scripted transport write fault')
+                    return await real(*a, **k)
+            else:
+                def send(*a, **k):
+                    state['n'] += 1
+                    if state['n'] == 1:
+                        raise OSError('scripted transport write fault')
+                    return real(*a, **k)
+            w.sio.eio.send = send
+            try:
+                w.recv_packet(t, 0, ns)
+            finally:
+                w.sio.eio.send = real
+            del w.task_errors[:]
+            if w.is_async:
+                w.loop.collect_errors()
+            log = w.take_log()
+            w.drain_all()
+            real_sid = w.sid_of(t, ns)
+            if len(log) != 1 or log[0][0] != 'connect' or state['n'] != 1:
+                self._bad(w, 'connect-handler-count', f'{op}: handler log '
+                          f'{log!r}, {state["n"]} transport writes')
+            elif real_sid is None or n(real_sid) != log[0][2] or \
+                    not w.sio.manager.is_connected(real_sid, ns):
+                self._bad(w, 'accept-state', f'{op}: the handler accepted '
+                          f'{log[0][2]} but the server now knows '
+                          f'{n(real_sid)!r}')
+            else:
+                w.all_sids.add(real_sid)
+                w.conn[(s, ns)] = real_sid
         elif kind == 'DISCONNECT':
             _, s, ns = op
             t = w.slot[s]
